@@ -1,58 +1,40 @@
 import Flatland.JsonUtil
 import Flatland.C20
+import Flatland.Run.C04
 open Lean Flatland.J
 namespace Flatland.Run.C20
 open Flatland.C20
 
-/-! JSON glue for C20.  Values are a small native universe (None | str | int | bool) and member
-kinds String(strip) / String(strip=False) / Integer; the model itself is generic in both. -/
+/-! JSON glue for C20.  Values are the native universe of the scalar model (C04) and members are
+scalar kinds of that model; the C20 model itself is generic in both. -/
 
-inductive NV | none | str (s : List Char) | int (i : Int) | bool (b : Bool)
-  deriving DecidableEq, Repr, Inhabited
+abbrev NV := Flatland.Scalar.Native
 
-def isWs (c : Char) : Bool :=
-  let n := c.toNat
-  (0x09 ≤ n && n ≤ 0x0D) || (0x1C ≤ n && n ≤ 0x20) || n == 0x85 || n == 0xA0 || n == 0x1680 ||
-  (0x2000 ≤ n && n ≤ 0x200A) || n == 0x2028 || n == 0x2029 || n == 0x202F || n == 0x205F || n == 0x3000
+def plainEnv : Flatland.Scalar.Env := ⟨Flatland.Generated.C04.pyTables, fun _ _ => some none⟩
 
-def strip (s : List Char) : List Char := ((s.dropWhile isWs).reverse.dropWhile isWs).reverse
+/-- kinds are written as C04 kind objects, or with the short names of the first cases -/
+def parseKindC20 (j : Json) : Except String Flatland.Scalar.Kind :=
+  match j with
+  | .str "str" => pure (.string true)
+  | .str "strns" => pure (.string false)
+  | .str "int" => pure (.integer true 0)
+  | o => Flatland.Run.C04.parseKind o
 
-def pyStr : NV → List Char
-  | .none => "None".toList | .str s => s | .int i => (toString i).toList
-  | .bool true => "True".toList | .bool false => "False".toList
-
-def parseInt (s : List Char) : Option Int :=
-  let s := strip s
-  let (neg, ds) := match s with
-    | '-' :: r => (true, r) | '+' :: r => (false, r) | r => (false, r)
-  if ds.isEmpty || !(ds.all fun c => '0' ≤ c && c ≤ '9') then Option.none
-  else
-    let n := ds.foldl (fun acc c => acc * 10 + (c.toNat - '0'.toNat)) 0
-    some (if neg then - (n : Int) else n)
-
-/-- `.value` after `member.set(x)` for the three member kinds used by the C20 cases -/
-def setValue (kind : String) (x : NV) : NV :=
-  match kind, x with
-  | _, .none => .none
-  | "str", x => .str (strip (pyStr x))
-  | "strns", x => .str (pyStr x)
-  | "int", .int i => .int i
-  | "int", .bool b => .int (if b then 1 else 0)
-  | "int", .str s => match parseInt s with | some i => .int i | Option.none => .none
-  | _, _ => .none
+/-- `.value` after `member.set(x)` -/
+def setValue (k : Flatland.Scalar.Kind) (x : NV) : NV :=
+  match Flatland.Scalar.setScalar plainEnv k x with
+  | .ok r => r.st.value
+  | .error _ => .none
 
 def parseNV (j : Json) : Except String NV := do
   if isNull j then return .none
+  if let .ok _ := fld j "t" then return (← Flatland.Run.C04.parseNative j)
   if let .ok s := fld j "s" then return .str (← chars s)
   if let .ok i := fld j "i" then return .int (← int i)
   if let .ok b := fld j "b" then return .bool (← bool b)
   throw "bad native"
 
-def ofNV : NV → Json
-  | .none => Json.null
-  | .str s => obj [("s", ofChars s)]
-  | .int i => obj [("i", ofInt i)]
-  | .bool b => obj [("b", Json.bool b)]
+def ofNV (v : NV) : Json := Flatland.Run.C04.ofNative v
 
 def asciiUpper (s : List Char) : List Char :=
   s.map fun c => if 'a' ≤ c && c ≤ 'z' then Char.ofNat (c.toNat - 32) else c
@@ -110,8 +92,8 @@ def objJson (o : Obj NV) : Json :=
 
 def run (j : Json) : Except String Json := do
   let fieldsJ ← afld j "fields"
-  let kinds ← fieldsJ.mapM fun f => do return (← cfld f "name", ← sfld f "kind")
-  let kindOf (n : List Char) : String := ((kinds.find? (·.1 == n)).map (·.2)).getD "str"
+  let kinds ← fieldsJ.mapM fun f => do return (← cfld f "name", ← parseKindC20 (← fld f "kind"))
+  let kindOf (n : List Char) : Flatland.Scalar.Kind := ((kinds.find? (·.1 == n)).map (·.2)).getD (.string true)
   let S : Schema NV := { fields := kinds.map (·.1), blank := .none,
                          setF := fun n x => setValue (kindOf n) x, policy := ← parsePolicy j }
   -- the element's state: every member has been `set()` with the case's raw value
